@@ -169,6 +169,8 @@ func startChurn() *churn {
 	add(regEntry{fn: "churnLocked", state: "chan receive", locked: true, creator: creator}, func() { churnLocked(c) })
 	add(regEntry{fn: "churnDeep", state: "chan receive", elided: true, creator: creator}, func() { churnDeep(c, 130) })
 	add(regEntry{fn: "churnString", state: "chan receive", creator: creator}, func() { churnString(c, "hello, churn", 7) })
+	// a one-line function on the very last line of a file that does not end in a newline (churn_lastline.go)
+	add(regEntry{fn: "churnLastLine", state: "chan receive (nil chan)", creator: creator}, func() { churnLastLine(c, 7) })
 	c.ready.Wait()
 	time.Sleep(50 * time.Millisecond) // let them park
 	// goroutines being created and exiting all the time
@@ -279,9 +281,23 @@ func checkLibrarySnapshot(res *Result, c *churn, it int) {
 	dump := selfDump()
 	want := len(reHeaderLine.FindAll(dump, -1))
 	opts := stack.DefaultOpts()
-	s, _, err := stack.ScanSnapshot(bytes.NewReader(dump), io.Discard, opts)
 	mk := func(aspect, what string) Finding {
 		return Finding{Property: "C20", Aspect: aspect, What: fmt.Sprintf("self snapshot %d: %s", it, what), Input: dump}
+	}
+	var s *stack.Snapshot
+	var err error
+	pan := func() (p string) {
+		defer func() {
+			if r := recover(); r != nil {
+				p = fmt.Sprint(r)
+			}
+		}()
+		s, _, err = stack.ScanSnapshot(bytes.NewReader(dump), io.Discard, opts)
+		return ""
+	}()
+	if pan != "" {
+		res.violation(mk("panic", "parsing the process's own dump with the default options panicked: "+pan))
+		return
 	}
 	if err != nil && err != io.EOF {
 		res.violation(mk("error", fmt.Sprintf("the process's own dump does not parse: %v", err)))
@@ -360,7 +376,17 @@ func doRequest(r *webReq) (*httptest.ResponseRecorder, string) {
 	target := "/debug/panicparse?" + q.Encode()
 	req := httptest.NewRequest(r.R.Method, target, nil)
 	w := httptest.NewRecorder()
-	webstack.SnapshotHandler(w, req)
+	func() {
+		defer func() {
+			if p := recover(); p != nil {
+				// reported by checkWebResponse through the status: a handler that panics answers nothing
+				w.Code = 599
+				w.Body.Reset()
+				fmt.Fprintf(w.Body, "PANIC: %v", p)
+			}
+		}()
+		webstack.SnapshotHandler(w, req)
+	}()
 	return w, target
 }
 
